@@ -469,15 +469,17 @@ def range_limits(ctx, label, case, curve, h0):
     configs.append(("both", Tm_lo + rng.uniform(0.3, 0.9) * (Tm_hi - Tm_lo),
                     Tp_lo + rng.uniform(0.3, 0.9) * (Tp_hi - Tp_lo)))
     configs.append(("ample", big, big))
-    # precondition of the decision model: findMatching is defined at the slow end of the
-    # bracket that fastestDeflag hands to brentq (T+-(vw) are total functions there)
-    start = h0.findMatching(h0.vMin + h0.vBracketLow)
+    # preconditions of the decision model at the slow end of the bracket that fastestDeflag
+    # hands to brentq: findMatching returns a solution there, and T+-(vw) are monotone from
+    # there on (the vw grid of `admissibility` starts a little higher)
+    lo0 = h0.vMin + h0.vBracketLow
+    start = h0.findMatching(lo0)
     if start[0] is None:
         ctx.count("window_start_unsolved", case)
         ctx.log("observation: findMatching(vMin+vBracketLow=%.4g) returns no solution for %s; "
                 "fastestDeflag would raise TypeError there -- outside the quantifier (no "
                 "matching returned), range test of the deflagration window skipped" % (
-                    h0.vMin + h0.vBracketLow, label))
+                    lo0, label))
         configs = []
         # reported as a finding only once it is listed in known_findings.json (see report)
         key = "fastestDeflag:window-start-unsolved"
@@ -487,6 +489,30 @@ def range_limits(ctx, label, case, curve, h0):
                            "raises TypeError when a range cuts the window [%s]" % label,
                            dict(kind="range", case=case, which="low", TMaxLowT=Tm_hi,
                                 TMaxHighT=big, lowEnds=False, highEnds=False), key=key)
+    else:
+        head = [(lo0, float(start[2]), float(start[3]))]
+        for v in (2 * lo0, 4 * lo0, 8 * lo0):
+            if v < defl[0][0]:
+                r = h0.findMatching(v)
+                if r[0] is not None:
+                    head.append((v, float(r[2]), float(r[3])))
+        full = head + defl
+        nb = monotone([x[2] for x in full], True, rel=1e-4) + \
+            monotone([x[1] for x in full], True, rel=1e-4)
+        ctx.count("window_start_monotone_scan", bucket="violations=%d" % nb)
+        if nb:
+            ctx.count("window_not_monotone", case)
+            ctx.log("observation: T+-(vw) jump at the slow end of the window for %s: %s ... "
+                    "(hypothesis of the range theorems fails: spurious matching at very small vw)"
+                    "; range test of the deflagration window skipped" % (
+                        label, ["vw=%.4g T+=%.5f T-=%.5f" % x for x in full[:5]]))
+            configs = []
+            key = "findMatching:spurious-slow-wall-solution"
+            if any(k.get("property") == "C06" and k.get("key") == key
+                   for k in ctx.known.get("findings", [])):
+                ctx.fail_input("findMatching returns a spurious solution at the slow end of the "
+                               "window (T+-(vw) jump) [%s]" % label,
+                               dict(kind="matching", case=case, vw=lo0), key=key)
     for which, TML, TMH in configs:
         if TML <= Tn or TMH <= Tn:
             continue          # the nucleation temperature must be inside both tables
